@@ -27,6 +27,13 @@ BOUNDS = {
 OUTSIDE = ["IEEE rounding of the Hermite basis evaluation", "arrays longer than the bound", "non-increasing arrays"]
 
 
+ASSUMPTIONS = list(globals().get("ASSUMPTIONS", [])) + [
+    "refilled-in-place instances: the same list / array object is searched with one strictly increasing content, overwritten element by element with another one of the "
+    "same length, and searched again (both contents and both queries symbolic)",
+    "results_modified_by_caller: every array the Hermite piece returned is overwritten in place before the piece is evaluated again",
+]
+
+
 def instances(tier):
     out = []
     nmax = 6 if tier == "quick" else 7
